@@ -38,10 +38,10 @@ N_MIX = {"quick": 120, "thorough": 4000}
 REQUIRE = {
     "quick": {"dags_enumerated": 33867, "running_events_with_parents": 800, "rejected:dependency": 100,
               "get_ops_vectors_checked": 5000, "sim_runs": 100, "churn_operators": 2 * 70000,
-              "churn_dependency_refusals": 5000},
+              "churn_dependency_refusals": 5000, "big_dags_checked": 40},
     "thorough": {"dags_enumerated": 2131019, "running_events_with_parents": 50000, "rejected:dependency": 3000,
                  "get_ops_vectors_checked": 100000, "sim_runs": 2000, "churn_operators": 16 * 70000,
-                 "churn_dependency_refusals": 40000},
+                 "churn_dependency_refusals": 40000, "big_dags_checked": 200},
 }
 CHUNK = 2048
 
@@ -49,9 +49,38 @@ CHUNK = 2048
 CHURN_OPS = 70000
 
 
+def big_dags(rng):
+    """DAGs far beyond the exhaustively enumerated sizes: wide frontiers (many roots, wide fan-out, wide joins),
+    deep chains, layered graphs - as parent lists in creation order."""
+    out = []
+    for r in (33, 40, 100, 300):
+        out.append([[] for _ in range(r)] + [list(range(r))])                         # r roots, one join of r parents
+    for f in (33, 64, 257):
+        out.append([[]] + [[0] for _ in range(f)] + [list(range(1, f + 1))])          # fan-out f, join f
+    for d in (200, 1200):
+        out.append([[]] + [[i - 1] for i in range(1, d)])                             # chain
+    for _ in range(4):                                                                  # layers of random width
+        par, prev, k = [], [], 0
+        for _layer in range(rng.randint(3, 8)):
+            width = rng.choice([1, 5, 34, 70])
+            this = []
+            for _w in range(width):
+                par.append(sorted(rng.sample(prev, rng.randint(1, min(len(prev), 40)))) if prev else [])
+                this.append(k)
+                k += 1
+            prev = this
+        out.append(par)
+    for _ in range(3):                                                                  # random, many edges
+        n = rng.choice([50, 120])
+        out.append([sorted(rng.sample(range(k), rng.randint(0, min(k, 12)))) if k else [] for k in range(n)])
+    return out
+
+
 def cases(tier, seed, shard, nshards):
     rng = rng_for(ID, seed, shard)
     idx = 0
+    if tier == "thorough" or 2 <= shard < 5:
+        yield {"kind": "bigdags", "seed": rng.getrandbits(32)}
     if tier == "thorough" or shard < 2:
         # a long object history in this process first: everything after it runs in a "seasoned" interpreter
         yield {"kind": "churn", "ops": CHURN_OPS, "seed": rng.getrandbits(32)}
@@ -148,6 +177,48 @@ def check_dag_range(case, mon):
     mon.hit({"n": n, "range": [lo, hi], "example": gen.dag_from_index(n, hi - 1)})
 
 
+def check_big_dags(case, mon):
+    from .. import sut
+    from eudoxia.workload.runtime_status import OperatorState
+    rng = random.Random(case["seed"])
+    for parents in big_dags(rng):
+        n = len(parents)
+        p = sut.Pipeline("big", sut.Priority.BATCH_PIPELINE)
+        ops = []
+        for k in range(n):
+            ops.append(p.new_operator([ops[i] for i in parents[k]] or None))
+        visited = list(p.values)
+        pos = {id(o): i for i, o in enumerate(visited)}
+        bad = None
+        if len(visited) != n or len(pos) != n or any(id(o) not in pos for o in ops):
+            bad = f"iteration visited {len(visited)} nodes ({len(pos)} distinct) of {n}"
+        else:
+            for k in range(n):
+                for i in parents[k]:
+                    if pos[id(ops[i])] > pos[id(ops[k])]:
+                        bad = f"node {k} visited before its parent {i}"
+        rs = p.runtime_status()
+        if bad is None and (len(rs.operator_states) != n or any(o not in rs.operator_states for o in ops)):
+            bad = f"runtime status tracks {len(rs.operator_states)} of {n} operators"
+        width = max(len(x) for x in parents)
+        if bad:
+            mon.fail("dag-iteration", f"DAG on {n} nodes (widest join {width}, {sum(1 for x in parents if not x)} roots): {bad}",
+                     nodes=n, roots=sum(1 for x in parents if not x), widest_join=width)
+        else:
+            # drive it to completion through the API in iteration order: every start must be accepted
+            try:
+                for o in visited:
+                    for st in (OperatorState.ASSIGNED, OperatorState.RUNNING, OperatorState.COMPLETED):
+                        rs.transition(o, st)
+                if not rs.is_pipeline_successful():
+                    mon.fail("dag-iteration", f"DAG on {n} nodes: all operators completed in iteration order but the pipeline is not successful")
+            except Exception as e:
+                mon.fail("dag-iteration", f"DAG on {n} nodes: running the operators in iteration order was refused: {type(e).__name__}: {e}")
+        mon.count("big_dags_checked")
+        mon.count("big_dag_nodes", n)
+    mon.hit({"kind": "bigdags"})
+
+
 def check_churn(case, mon):
     """Tens of thousands of operators live and die in this process, all through the public API; at every step
     the dependency guard of ->RUNNING and the ready filter are compared with the model."""
@@ -219,6 +290,8 @@ def run_case(case, mon):
         return check_dag_range(case, mon)
     if case["kind"] == "churn":
         return check_churn(case, mon)
+    if case["kind"] == "bigdags":
+        return check_big_dags(case, mon)
     if case["kind"] == "sim":
         _sim.run_sim_case(case, mon, ID, nontrivial=lambda h: h.events.get("running_events_with_parents", 0) > 0)
         return
